@@ -125,7 +125,7 @@ JudgeOneShot(s) ==
                  \cup (IF c.ao >= bnd /\ c.ret # 0 THEN {<<1, "S2-overflow-reported-although-space-meets-the-bound">>} ELSE {})
                  \cup (IF c.ret = 0 /\ c.p > bnd THEN {<<1, "S3-output-exceeds-the-bound">>} ELSE {})
                  \cup (IF c.ret = 0 /\ c.c # c.ai THEN {<<1, "S3-success-without-consuming-all-input">>} ELSE {})
-      u == IF pok /\ c.ret = 0 /\ c.flush = 0 THEN Unwrap(w, c.out, <<>>) ELSE [tag |-> "skip"]
+      u == IF pok /\ c.ret = 0 /\ (c.flush = 0 \/ c.eos = 1) THEN Unwrap(w, c.out, <<>>) ELSE [tag |-> "skip"]    \* NO_FLUSH implies end of stream; FULL_FLUSH terminates only if the caller set end_of_stream
       v5 == IF u.tag = "skip" THEN {}
             ELSE IF u.tag # "Valid" THEN {<<1, "S3-success-with-" \o u.tag \o "-" \o u.class \o "-stream">>}
             ELSE (IF u.out # s.inp THEN {<<1, "S3-stream-decodes-to-different-bytes">>} ELSE {})
@@ -133,17 +133,28 @@ JudgeOneShot(s) ==
                  \cup (IF \E bi \in 1..Len(u.d.blocks) : u.d.blocks[bi].maxDist > P2(WBits(s.hist_bits)) \/ u.d.blocks[bi].minRef < 0 THEN {<<1, "D8-match-outside-window">>} ELSE {})
                  \cup (IF w = "zlib" /\ u.hdr.fields.info + 8 < WBits(s.hist_bits) THEN {<<1, "D8-zlib-CINFO-smaller-than-window">>} ELSE {})
       \* FULL_FLUSH one-shot (raw): byte aligned, unterminated, all input decodable
-      f == IF pok /\ c.ret = 0 /\ c.flush = 2 THEN PrefixDecode(s, c.out, <<>>, NoDec) ELSE [ok |-> FALSE, why |-> "skip"]
-      v6 == IF ~(pok /\ c.ret = 0 /\ c.flush = 2) THEN {}
+      \* (the property states this for raw deflate only; wrapped one-shot output with FULL_FLUSH is not judged beyond S1/S2/S4)
+      f == IF pok /\ c.ret = 0 /\ c.flush = 2 /\ c.eos = 0 /\ s.wrap = 0 THEN PrefixDecode(s, c.out, <<>>, NoDec) ELSE [ok |-> FALSE, why |-> "skip"]
+      v6 == IF ~(pok /\ c.ret = 0 /\ c.flush = 2 /\ c.eos = 0 /\ s.wrap = 0) THEN {}
             ELSE IF ~f.ok THEN {<<1, "S3-" \o f.why>>}
             ELSE (IF f.d.tag = "NeedMore" /\ f.d.atBoundary /\ f.d.out = s.inp THEN {} ELSE {<<1, "S3-full-flush-output-not-an-aligned-unterminated-prefix">>})
       blocks == IF u.tag = "Valid" THEN u.d.blocks ELSE <<>>
   IN [scn |-> s.scn, viol |-> SetToSeq(v1 \cup v3 \cup v5 \cup v6), ncalls |-> 1, produced |-> c.p, flush_points |-> 0, full_points |-> 0,
       stats |-> [nblocks |-> Len(blocks), match |-> \E bi \in 1..Len(blocks) : blocks[bi].maxDist > 0, types |-> [bi \in 1..Len(blocks) |-> blocks[bi].type]]]
 
+(* ---- appended one-shot outputs (api 9, assembled by the driver from two recorded one-shot calls): the
+   concatenation of a FULL_FLUSH raw output and a following terminated output must be one valid stream ---- *)
+JudgeConcat(s) ==
+  LET c == s.calls[1]  u == Unwrap("raw", c.out, <<>>)
+      v == IF u.tag # "Valid" THEN {<<1, "S3-appended-one-shot-outputs-are-" \o u.tag \o "-" \o u.class>>}
+           ELSE (IF u.out # s.inp THEN {<<1, "S3-appended-one-shot-outputs-decode-to-different-bytes">>} ELSE {})
+                \cup (IF u.endByte # Len(c.out) THEN {<<1, "S3-trailing-garbage-after-stream">>} ELSE {})
+  IN [scn |-> s.scn, viol |-> SetToSeq(v), ncalls |-> 1, produced |-> Len(c.out), flush_points |-> 0, full_points |-> 0,
+      stats |-> [nblocks |-> IF u.tag = "Valid" THEN Len(u.d.blocks) ELSE 0, match |-> FALSE, types |-> <<>>]]
+
 Judge(s) == IF Len(s.calls) = 0 THEN [scn |-> s.scn, viol |-> <<<<0, "harness-recorded-no-call">>>>, ncalls |-> 0, produced |-> 0, flush_points |-> 0, full_points |-> 0,
                                        stats |-> [nblocks |-> 0, match |-> FALSE, types |-> <<>>]]
-            ELSE IF s.api = 1 THEN JudgeOneShot(s) ELSE JudgeStream(s)
+            ELSE IF s.api = 9 THEN JudgeConcat(s) ELSE IF s.api = 1 THEN JudgeOneShot(s) ELSE JudgeStream(s)
 Out == [i \in 1..Len(Scn) |-> Judge(Scn[i])]
 ASSUME ndJsonSerialize(IOEnv.VERIF_OUT, Out)
 =============================================================================
